@@ -92,7 +92,7 @@ LIB = {
     'numpy.linalg.inv': F(), 'numpy.linalg.solve': F(), 'numpy.linalg.eigh': F(), 'numpy.linalg.norm': F(),
     'numpy.linalg.det': F(), 'numpy.linalg.cholesky': F(), 'numpy.outer': F(maxpos=2), 'numpy.trace': F(maxpos=4),
     'numpy.where': F(), 'numpy.isnan': UF(1), 'numpy.isfinite': UF(1), 'numpy.allclose': F(), 'numpy.tile': F(),
-    'numpy.repeat': F(), 'numpy.argsort': F(), 'numpy.argmax': F(maxpos=2), 'numpy.argmin': F(maxpos=2),
+    'numpy.repeat': F(), 'numpy.argsort': F(), 'numpy.flatnonzero': F(), 'numpy.nonzero': F(), 'numpy.count_nonzero': F(), 'numpy.argmax': F(maxpos=2), 'numpy.argmin': F(maxpos=2),
     # --- numpy ufuncs (positional `out` after the inputs)
     'numpy.sin': UF(1), 'numpy.cos': UF(1), 'numpy.tan': UF(1), 'numpy.arcsin': UF(1), 'numpy.arccos': UF(1),
     'numpy.arctan': UF(1), 'numpy.arctan2': UF(2), 'numpy.hypot': UF(2), 'numpy.deg2rad': UF(1),
@@ -2182,7 +2182,7 @@ def run_microtests():
         'numpy.linalg.norm': U1, 'numpy.linalg.det': SQ, 'numpy.linalg.cholesky': SQ, 'numpy.outer': lambda: ((d()['v'], d()['v']), {}),
         'numpy.trace': SQ, 'numpy.where': lambda: ((d()['A'] > 1, d()['A'], d()['B']), {}), 'numpy.allclose': B2,
         'numpy.tile': lambda: ((d()['v'], 2), {}), 'numpy.repeat': lambda: ((d()['v'], 2), {}), 'numpy.argsort': U1,
-        'numpy.argmax': U1, 'numpy.argmin': U1, 'numpy.clip': lambda: ((d()['A'], 0.6, 0.9), {}),
+        'numpy.argmax': U1, 'numpy.argmin': U1, 'numpy.flatnonzero': U1, 'numpy.nonzero': U1, 'numpy.count_nonzero': U1, 'numpy.clip': lambda: ((d()['A'], 0.6, 0.9), {}),
         'scipy.linalg.cholesky': lambda: ((d()['M'],), dict(lower=True)),
         'scipy.linalg.cho_solve': lambda: (((np.linalg.cholesky(d()['M']), True), d()['M'].copy()), {}),
         'scipy.linalg.solve_triangular': lambda: ((np.linalg.cholesky(d()['M']), d()['v']), dict(lower=True)),
